@@ -67,6 +67,32 @@ STATIC = [
                                     md={"choices": [["ca", "int"], ["cb", "str"], ["cl", "_C1"]]})]),
     C(36, "Nil", ns="urn:u", own=[F("nv", pytype="Optional[str]", md={"nillable": True}), F("nleaf", type=1)]),
 ]
+# compound (Elements / choices) fields with several primitive choices in every order: a str value is
+# matched to the FIRST choice whose converter accepts it, so which element a value is written as /
+# decoded into depends on the value, never on what the cached XmlVar has seen before
+PRIMS = {"int": ("i", "123", 7), "float": ("f", "1.5", 2.5), "bool": ("b", "true", True), "XmlDate": ("d", "2020-01-02", "2021-03-04")}
+COMPOUND = {}
+
+
+def _compound_classes():
+    out, cid = [], 40
+    for t in PRIMS:
+        for order in ("first", "last"):
+            ch = [["p", t], ["txt", "str"]] if order == "first" else [["txt", "str"], ["p", t]]
+            name = f"Cmp{t}{order.capitalize()}"
+            COMPOUND[cid] = (name, [t])
+            out.append(C(cid, name, own=[F("items", lst=True, pytype="List[object]", md={"choices": ch})]))
+            cid += 1
+    for name, ch in (("CmpIntFloatStr", [["p", "int"], ["g", "float"], ["txt", "str"]]),
+                     ("CmpBoolIntStr", [["b", "bool"], ["p", "int"], ["txt", "str"]]),
+                     ("CmpStrIntFloat", [["txt", "str"], ["p", "int"], ["g", "float"]])):
+        COMPOUND[cid] = (name, [c[1] for c in ch if c[1] != "str"])
+        out.append(C(cid, name, own=[F("items", lst=True, pytype="List[object]", md={"choices": ch})]))
+        cid += 1
+    return out
+
+
+STATIC += _compound_classes()
 DYNAMIC = [
     C(20, "Late", ns="urn:late", own=[F("x")]),
     C(21, "LateDer", parent=6, own=[F("z2")]),
@@ -488,6 +514,21 @@ def build_ops(ck, fresh_ser, fresh_enc):
             ("Nil", "oround", 36, f'<Nil {U} xmlns:xsi="{XSI}"><nv xsi:nil="true"/><nleaf><x>n</x></nleaf></Nil>'),
             ("Leaf-in-u", "oparse", 1, f"<Leaf {U}><x>q</x></Leaf>")):
         add(f"{kind}:{tag}", (), kind=kind, doc=doc, clazz=clazz)
+    # compound fields: str values that do / do not convert to the earlier choice, and values of the choice type
+    for cid, (cname, prims) in COMPOUND.items():
+        t0 = prims[0]
+        tag0, conv, val = PRIMS[t0]
+        lists = {"conv": [["s", conv]], "non": [["s", "abc"]], "non-conv": [["s", "abc"], ["s", conv]],
+                 "conv-non": [["s", conv], ["s", "abc"]], "typed": [[tag0, val], ["s", "zz"]]}
+        if len(prims) > 1:
+            lists["conv2"] = [["s", PRIMS[prims[1]][1]], ["s", conv]]
+        for ln, items in lists.items():
+            add(f"oser:{cname}:{ln}", (), kind="oser", clazz=cid, fields=[["items", items]])
+            data = {"items": [v if t != "d" else v for t, v in items]}
+            if ln != "typed" or tag0 != "d":
+                add(f"odecs:{cname}:{ln}", (), kind="odecs", clazz=cid, data=data)
+        add(f"odec:{cname}:non-conv", (), kind="odec", clazz=cid, data={"items": ["abc", conv]})
+        add(f"ojser:{cname}:conv-non", (), kind="ojser", clazz=cid, fields=[["items", lists["conv-non"]]])
     for c in (30, 32, 33, 34, 36, 19, 18):     # (35: a compound field is described only as far as its namespace goes)
         add(f"build:{c},urn:q", (), kind="call", name="build", args=[c, "urn:q"])
         add(f"build:{c},None", (), kind="call", name="build", args=[c, None])
@@ -544,7 +585,7 @@ ENVS = [{"env": "define", "cid": 20, "bump": False}, {"env": "define", "cid": 22
         {"env": "define", "cid": 21, "bump": True}]
 CLOSED = ["ser:Own", "parse:Own", "parse-auto:Own", "jser:Own", "dec:Own", "ser:Broken", "build:Broken",
           "parse:nobody", "find_type:{urn:o}Own", "find_type:{urn:none}Nobody", "ser:Own2", "parse:Own2"]
-OPAQUE = ("oparse", "oround", "ojparse", "ojround")
+OPAQUE = ("oparse", "oround", "ojparse", "ojround", "oser", "ojser", "odec", "odecs")
 
 
 def valid(seq, ops):
@@ -583,6 +624,18 @@ def gen_sequences(ck, ops):
             if valid(tup, ops):
                 seqs.append(list(tup))
                 kinds["exhaustive"] += 1
+    # compound fields: all ordered pairs of the operations of one class, and longer interleavings
+    kinds["compound"] = 0
+    for cid, (cname, _) in COMPOUND.items():
+        mine = [i for i, o in enumerate(ops) if o.get("clazz") == cid and o["kind"] in ("oser", "ojser", "odec", "odecs")]
+        for a in mine:
+            for b in mine:
+                if a != b:
+                    seqs.append([{"op": a}, {"op": b}])
+                    kinds["compound"] += 1
+        for _ in range(ck.n(3, 40)):
+            seqs.append([{"op": r.choice(mine)} for _ in range(r.randint(3, 7))])
+            kinds["compound"] += 1
     # the witnesses of the refutation lemmas (coq/Properties/C14.v)
     W = [["ser:PA", "ser:PB", "parse:PB"],
          ["find_type:{urn:late}Late", ENVS[0], "find_type:{urn:late}Late", "parse-auto:Late"],
